@@ -19,6 +19,10 @@ class Facts:
     def __init__(self, path):
         with open(path) as f:
             d = json.load(f)
+        import renames
+
+        # pure renames of private items are undone first (renames.py); everything below sees reference names
+        self.renames = renames.normalise(d) if not os.environ.get("VERIF_NO_RENAMES") else []
         self.raw = d
         self.path = path
         self.crate = d["crate"]
